@@ -13,9 +13,7 @@ for t, c in api.REG.contracts.items():
         try:
             if len(cn) == 3:
                 tgt, old, new = cn
-                f = tgt() if callable(tgt) and not hasattr(tgt, '__code__') or (callable(tgt) and tgt.__code__.co_argcount == 0 and tgt.__name__ == '<lambda>') else tgt
-                if isinstance(f, str):
-                    f = verify.resolve_target(f) if hasattr(verify, 'resolve_target') else None
+                f = tgt() if callable(tgt) else verify.resolve(tgt)
             else:
                 old, new = cn
                 f = verify.target_function(c)
